@@ -1,8 +1,17 @@
-/- Driver handler of C19: protocol line (already split into tokens, without the leading "c19") -> answer. -/
+/- Driver handler of C19: `c19 <fn> <arg tokens…>` -> the wrapped function's result (one value token). -/
 import Pycel.Model.Proto
+import Pycel.Model.Rounding
 namespace Pycel.Drv.C19
+open Pycel Pycel.Rounding
 
 def handle : List String → String
+  | "c19" :: fn :: toks =>
+    match toks.mapM Val.dec? with
+    | some args =>
+      match call fn args with
+      | some v => v.enc
+      | none => "!bad-call"
+    | none => "!bad-arg"
   | _ => "!bad-op"
 
 end Pycel.Drv.C19
